@@ -15,10 +15,10 @@ HARNESSES = {
     'C13': ['l1_active_bits', 'l2_normal_new'],
     'C08': ['c08_pushtype_equals_scalar'],
     'C10': ['c10_unfired_vector', 'c10_unfired_code', 'c10_unfired_graph'],
-    'C09': ['b_c09_bool_vector_count', 'b_c09_int_vector_sum', 'b_c09_int_vector_remove', 'b_c09_int_vector_bool_index',
-            'b_c09_int_vector_sort', 'b_c09_float_vector_sort_total'],
-    'C01': ['b_c09_bool_vector_count', 'b_c09_int_vector_sum', 'b_c09_int_vector_remove', 'b_c09_int_vector_bool_index',
-            'b_c09_int_vector_sort', 'b_c09_float_vector_sort_total', 'l2_normal_new', 'l1_active_bits'],
+    # b_c09_int_vector_remove / b_c09_int_vector_sort / b_c09_float_vector_sort_total exist in kani/vector.rs.inc but are not run:
+    # std's sort and Vec::retain did not finish in CBMC within 400 s even for length <= 2 (measured) -> those bodies stay undecided
+    'C09': ['b_c09_bool_vector_count', 'b_c09_int_vector_sum', 'b_c09_int_vector_bool_index', 'b_c09_from_int_array'],
+    'C01': ['b_c09_bool_vector_count', 'b_c09_int_vector_sum', 'b_c09_int_vector_bool_index', 'l2_normal_new', 'l1_active_bits'],
 }
 WHAT = {
     'c04_float_max_order': 'FLOAT.MAX: result is one of the operands and >= both (no NaN); all f32 pairs',
@@ -29,15 +29,16 @@ WHAT = {
     'c10_unfired_vector': 'external-bodied vector instructions leave the empty state untouched (no operands => nothing pushed anywhere)',
     'c10_unfired_code': 'CODE.CONTAINS / MEMBER / DISCREPANCY leave the empty state untouched',
     'c10_unfired_graph': 'GRAPH.EDGE*HISTORY / NODE*NEIGHBORS / PREDECESSORS / SUCCESSORS leave the empty state untouched',
+    'b_c09_from_int_array': 'BOUNDED (len<=3): the assumed contract of the trusted BoolVector::from_int_array (element i is arg[i] == 1)',
     'c04_float_from': 'FLOAT.FROMINTEGER / FLOAT.FROMBOOLEAN values; all i32 / bool',
     'l1_active_bits': 'float lemma L1 (assumed in random_bool_vector): 0 <= bits <= size, bits < i32::MAX; all (f32 in [0,1], i32 >= 0)',
     'l2_normal_new': 'float lemma L2 (axiom ax_normal_std_ok): rand_distr Normal::new(m, s).is_ok() == s.is_finite(); all f32 pairs',
     'b_c09_bool_vector_count': 'BOUNDED (len<=3): BOOLVECTOR.COUNT pushes the number of true elements',
     'b_c09_int_vector_sum': 'BOUNDED (len<=3): INTVECTOR.SUM pushes the wrapping sum',
-    'b_c09_int_vector_remove': 'BOUNDED (len<=3): INTVECTOR.REMOVE removes exactly the occurrences of the operand',
+    'b_c09_int_vector_remove': 'BOUNDED (len<=2): INTVECTOR.REMOVE removes exactly the occurrences of the operand',
     'b_c09_int_vector_bool_index': 'BOUNDED (len<=3): INTVECTOR.BOOLINDEX pushes the indices of the true elements',
-    'b_c09_int_vector_sort': 'BOUNDED (len<=3): INTVECTOR.SORT*ASC yields an ascending vector of the same length',
-    'b_c09_float_vector_sort_total': 'BOUNDED (len<=3): FLOATVECTOR.SORT*ASC/DESC never panic (NaN included) and keep the length',
+    'b_c09_int_vector_sort': 'BOUNDED (len<=2): INTVECTOR.SORT*ASC yields an ascending vector of the same length',
+    'b_c09_float_vector_sort_total': 'BOUNDED (len<=2): FLOATVECTOR.SORT*ASC/DESC never panic (NaN included) and keep the length',
 }
 
 
